@@ -126,6 +126,10 @@ pub struct TransformerContext {
     rng: RefCell<Pcg32>,
     /// Current recursion depth
     current_depth: u32,
+    /// Incremented whenever something a later element could depend on changes:
+    /// an element is registered or updated, a variable or default is set, the
+    /// config is replaced. Lets the retry loop see whether another pass can help.
+    change_count: u64,
     /// Is this a 'real' SVG doc, or just a fragment?
     pub real_svg: bool,
     /// Are we in a <specs> block?
@@ -149,6 +153,7 @@ impl Default for TransformerContext {
             rng: RefCell::new(Pcg32::seed_from_u64(0)),
             local_style_id: None,
             current_depth: 0,
+            change_count: 0,
             real_svg: false,
             in_specs: false,
             events: Vec::new(),
@@ -282,7 +287,12 @@ impl TransformerContext {
         ctx
     }
 
+    pub fn change_count(&self) -> u64 {
+        self.change_count
+    }
+
     pub fn set_config(&mut self, config: TransformConfig) {
+        self.change_count += 1;
         self.seed_rng(config.seed);
         if config.use_local_styles {
             // randomise the local id to avoid conflicts with other SVG
@@ -335,6 +345,7 @@ impl TransformerContext {
     }
 
     pub fn set_element_default(&mut self, el: &SvgElement) {
+        self.change_count += 1;
         let scope = self.ensure_scope();
         let el_match = ElementMatch::from(el);
         let mut mod_el = el.clone();
@@ -410,7 +421,10 @@ impl TransformerContext {
 
     pub fn set_var(&mut self, name: &str, value: &str) {
         let scope = self.ensure_scope();
-        scope.vars.insert(name.into(), value.into());
+        let old = scope.vars.insert(name.into(), value.into());
+        if old.as_deref() != Some(value) {
+            self.change_count += 1;
+        }
     }
 
     pub fn push_element(&mut self, el: &SvgElement) {
@@ -485,10 +499,26 @@ impl TransformerContext {
         self.prev_element = Some(el.clone());
     }
 
+    /// Register an element which has not been evaluated yet, unless its id is
+    /// already known (a re-evaluated element keeps its earlier registration until
+    /// it is resolved again).
+    pub fn register_element(&mut self, el: &SvgElement) {
+        if let Some(id) = el.get_attr("id") {
+            let id = eval_attr(&id, self).unwrap_or(id);
+            if !self.elem_map.contains_key(&id) {
+                self.update_element(el);
+            }
+        }
+    }
+
     pub fn update_element(&mut self, el: &SvgElement) {
         if let Some(id) = el.get_attr("id") {
             let id = eval_attr(&id, self).unwrap_or(id);
-            if self.elem_map.insert(id.clone(), el.clone()).is_none() {
+            let old = self.elem_map.insert(id.clone(), el.clone());
+            if old.as_ref() != Some(el) {
+                self.change_count += 1;
+            }
+            if old.is_none() {
                 self.original_map.insert(id, el.clone());
             }
         }
